@@ -25,7 +25,7 @@ func init() {
 			"(message / Overflow==len-msize / error) and must equal the result of reading the same frame on a fresh channel (frame isolation); later well-formed frames must still be delivered. " +
 			"non-trivial = stream has an abnormal frame followed by a normal one, or a short frame after adversarial residue; distinct by the sequence of (frame class, length delta)",
 		Assumptions: []string{
-			"after a length prefix of 0-3 the stream position is unspecified: later frames of that stream are read (crash monitor) but not judged",
+			"a length prefix of 0-3 is taken to be a frame consisting of the prefix alone: the next frame starts right after those four bytes",
 			"for bodies the reference codec rejects for reasons other than being too short (trailing bytes, inconsistent stat sizes) either an error or a message is accepted, but it must be the same on a fresh channel",
 		},
 		Shards:   shards(8, 16),
@@ -215,7 +215,8 @@ func genFrameC03(w *mon.W, g *gen.G, M int, last bool) c03frame {
 		if p < 4 {
 			b := make([]byte, 4)
 			setPrefix(b, uint32(p))
-			return c03frame{class: "prefix<4", bytes: b, expect: "err", fatal: true}
+			// the four prefix bytes are the whole "frame": whatever follows is the next frame
+			return c03frame{class: "prefix<4", bytes: b, expect: "err"}
 		}
 		b := make([]byte, p)
 		r.Read(b[4:])
@@ -375,6 +376,8 @@ func runC03(w *mon.W) {
 		abnormalSeen := false
 		nontrivial := false
 		inForce := M
+		var prevGot outcome
+		var prevWant *p9p.Fcall
 		for j, f := range frames {
 			if f.m != inForce {
 				ch.SetMSize(f.m)
@@ -384,6 +387,14 @@ func runC03(w *mon.W) {
 			got := readOne(ch)
 			w.Count("class:"+f.class, 1)
 			w.Count("frames_read", 1)
+			// the message delivered for the previous frame must not change when the next frame is read
+			if prevWant != nil && prevGot.kind == "msg" && !refcodec.EqFcall(prevGot.msg, prevWant) {
+				w.Violate("mismatch", "C03:message-changed-by-next-read", fmt.Sprintf("the message delivered for frame %d changed when frame %d was read: now %s, was %s; %s", j-1, j, refcodec.Describe(prevGot.msg), refcodec.Describe(prevWant), caseDesc), nil)
+			}
+			prevGot, prevWant = got, nil
+			if got.kind == "msg" && f.expect == "msg" && refcodec.EqFcall(got.msg, f.msg) {
+				prevWant = f.msg
+			}
 			if judged {
 				judgeC03(w, f, got, f.m, j, caseDesc)
 				if f.expect != "msg" && !f.fatal {
